@@ -43,3 +43,9 @@ open CalmVerif.Props.C02
 #check @minify1_stream_typed
 #print axioms direct_adjacent_safe_minify_partial
 #check @direct_adjacent_safe_minify_partial
+#print axioms separated_pairs_safe_minify_partial
+#check @separated_pairs_safe_minify_partial
+#print axioms sep_exclusions_witnessed
+#check @sep_exclusions_witnessed
+#print axioms minify_relexes_partial
+#check @minify_relexes_partial
